@@ -159,6 +159,7 @@ pub struct World {
     pub printer_objs: HashSet<usize>,
     pub wrote_in_call: bool,
     pub call_depth_user: usize,
+    pub in_thunk: bool,
     pub eval_count: u64,
     pub after_scan_closed: Vec<usize>,
     pub scan_returned: bool,
@@ -188,6 +189,7 @@ impl World {
             printer_objs: HashSet::new(),
             wrote_in_call: false,
             call_depth_user: 0,
+            in_thunk: false,
             eval_count: 0,
             after_scan_closed: vec![],
             scan_returned: false,
@@ -497,6 +499,36 @@ impl Interp {
     }
 
     pub fn apply(&mut self, f: &V, args: Vec<V>) -> R {
+        // identity of the procedures the policy body calls directly (matchers / printers): C11
+        let id = match f {
+            V::Lambda(l) => Rc::as_ptr(l) as *const u8 as usize,
+            V::Printer(p) => Rc::as_ptr(p) as *const u8 as usize,
+            _ => 0,
+        };
+        if id == 0 {
+            return self.apply_inner(f, args);
+        }
+        self.w.call_depth_user += 1;
+        let tracked = self.w.in_thunk && self.w.call_depth_user == 2;
+        let before = self.w.wrote_in_call;
+        if tracked {
+            self.w.wrote_in_call = false;
+        }
+        let r = self.apply_inner(f, args);
+        self.w.call_depth_user -= 1;
+        if tracked {
+            let wrote = self.w.wrote_in_call;
+            self.w.wrote_in_call = before || wrote;
+            if wrote {
+                self.w.printer_objs.insert(id);
+            } else if r.is_ok() {
+                self.w.matcher_objs.insert(id);
+            }
+        }
+        r
+    }
+
+    fn apply_inner(&mut self, f: &V, args: Vec<V>) -> R {
         match f {
             V::Lambda(l) => {
                 if l.params.len() != args.len() {
@@ -533,26 +565,8 @@ impl Interp {
         }
     }
 
-    /// Call a user-level procedure as a matcher/printer (from call-with-*) and note its identity.
     fn call_tracked(&mut self, f: &V, arg: V) -> R {
-        let id = match f {
-            V::Lambda(l) => Rc::as_ptr(l) as *const u8 as usize,
-            V::Printer(p) => Rc::as_ptr(p) as *const u8 as usize,
-            _ => 0,
-        };
-        let before = self.w.wrote_in_call;
-        self.w.wrote_in_call = false;
-        let r = self.apply(f, vec![arg]);
-        let wrote = self.w.wrote_in_call;
-        self.w.wrote_in_call = before || wrote;
-        if id != 0 {
-            if wrote {
-                self.w.printer_objs.insert(id);
-            } else if r.is_ok() {
-                self.w.matcher_objs.insert(id);
-            }
-        }
-        r
+        self.apply(f, vec![arg])
     }
 
     fn num(v: &V, who: &str) -> Result<(i128, i128), EvalError> {
@@ -1058,7 +1072,10 @@ impl Interp {
             self.w.cur_writes.clear();
             self.w.stop = false;
             let step_start = self.w.steps.len();
+            self.w.in_thunk = true;
+            self.w.call_depth_user = 0;
             let r = self.apply(&thunk, vec![]);
+            self.w.in_thunk = false;
             let v = match r {
                 Ok(v) => v,
                 Err(e) => {
